@@ -42,7 +42,7 @@ ASSUMPTIONS = ['reference values written by the generator name existing rows of 
                'Calculate repairs are the known C04 finding (formula cells stay dirty after rollback) and are not '
                'charged here']
 BUDGET = {'quick': dict(examples=1600, shards=16, max_seconds=40),
-          'thorough': dict(examples=20000, shards=16, max_seconds=500)}
+          'thorough': dict(examples=19000, shards=16, max_seconds=1800)}
 SHRINK_BUDGET = {'quick': 120, 'thorough': 500}
 
 A, B = 'People', 'Projects'
